@@ -158,7 +158,15 @@ func flip(rng *rand.Rand, b []byte) []byte {
 
 func malformed(rng *rand.Rand, b []byte) (string, string) {
 	h := hexOf("sha256", b)
-	switch v := rng.IntN(15); v {
+	switch v := rng.IntN(19); v {
+	case 15:
+		return pathDigest("sha256", "../../index.json"), "right-length-path-to-index.json"
+	case 16:
+		return pathDigest("sha256", "../../oci-layout"), "right-length-path-to-oci-layout"
+	case 17:
+		return pathDigest("sha512", "../../blobs/sha256/"+h), "right-length-path-to-own-sha256-blob"
+	case 18:
+		return pathDigest("sha512", "../sha256/"+h), "right-length-sibling-path-to-own-sha256-blob"
 	case 0:
 		return "", "empty"
 	case 1:
@@ -190,6 +198,23 @@ func malformed(rng *rand.Rand, b []byte) (string, string) {
 	default:
 		return "sha256:" + h[:32] + "/" + h[33:], "slash-in-hex"
 	}
+}
+
+// pathDigest builds a malformed digest "<algo>:<encoded>" whose encoded part has exactly
+// the length of a real digest of that algorithm but is a relative path: "./" padding
+// followed by tail (a doubled separator absorbs an odd remainder). Cleaned lexically,
+// blobs/<algo>/<encoded> names blobs/<algo>/<tail>.
+func pathDigest(algo, tail string) string {
+	want := map[string]int{"sha256": 64, "sha384": 96, "sha512": 128}[algo]
+	if (want-len(tail))%2 != 0 {
+		i := strings.Index(tail, "/")
+		tail = tail[:i] + "/" + tail[i:]
+	}
+	pad := want - len(tail)
+	if pad < 0 {
+		return algo + ":" + tail
+	}
+	return algo + ":" + strings.Repeat("./", pad/2) + tail
 }
 
 func unsupported(rng *rand.Rand, b []byte) (string, string) {
